@@ -67,4 +67,39 @@ abbrev u64lt (a b : Nat) : Bool := decide (a < b)
 abbrev u64eq (a b : Nat) : Bool := decide (a = b)
 abbrev u64ne (a b : Nat) : Bool := decide (a ≠ b)
 
+/-! ### typed mode of the printer (tools/go2lean/typed.go): general loops, `%`, Go `int`
+
+  A Go `int` (64 bit) is represented by its two's-complement WORD, a `Nat < W`: the conversions
+  `uint64(k)` and `int(u)` are the identity on words, and `+ - * & | ^ << == !=` and unary `-` are the
+  same word operations as for `uint64` (`u64add` …).  Only the operations below depend on the sign. -/
+
+/-- `for cond { body }` on the loop-carried state `s`, cut off after `fuel` iterations:
+    the condition is tested before every iteration; when the fuel is exhausted the current state is
+    returned WITHOUT testing the condition again.  The printer uses it only (a) with a fuel for which
+    the condition is false by then (`fuel = 64` for a loop that shifts a 64-bit word right by `K ≥ 1`
+    in every iteration and runs while the word is `> 0` / `!= 0`), or (b) with `fuel` an explicit
+    parameter, for a `for { … return … }` loop whose state carries `ret_ : Option result` and whose
+    condition is `ret_.isNone`; then `ret_ = none` at the end means "no return within `fuel`
+    iterations". -/
+def loopWhile {σ : Type} : Nat → (σ → Bool) → (σ → σ) → σ → σ
+  | 0, _, _, s => s
+  | n + 1, c, f, s => if c s then loopWhile n c f (f s) else s
+
+/-- Go `a % b` on uint64 (`b = 0` is a run-time panic in Go: outside the model). -/
+def u64mod (a b : Nat) : Nat := a % b
+
+/-- the value of the Go `int` whose two's-complement word is `a` (`a < W`). -/
+def i64toInt (a : Nat) : Int := if a < 9223372036854775808 then (a : Int) else (a : Int) - 18446744073709551616
+
+/-- Go `a >> k` on `int`: arithmetic shift (`x >> k = ~(~x >> k)` for negative `x`);
+    `k ≥ 64` gives `0` / `-1` as in Go.  A negative count is a run-time panic in Go: outside the model. -/
+def i64shr (a k : Nat) : Nat :=
+  if a < 9223372036854775808 then a / 2 ^ k else W - 1 - (W - 1 - a) / 2 ^ k
+
+/-- Go comparisons on `int`. -/
+abbrev i64lt (a b : Nat) : Bool := decide (i64toInt a < i64toInt b)
+abbrev i64le (a b : Nat) : Bool := decide (i64toInt a ≤ i64toInt b)
+abbrev i64gt (a b : Nat) : Bool := decide (i64toInt b < i64toInt a)
+abbrev i64ge (a b : Nat) : Bool := decide (i64toInt b ≤ i64toInt a)
+
 end Lattigo
